@@ -1349,8 +1349,8 @@ func (x *Exec) loopWrites2(fr *Frame, st *State, body map[*ssa.BasicBlock]bool) 
 					continue
 				}
 				pt := n.Addr.Type().Underlying().(*types.Pointer).Elem()
-				if al, ok := n.Addr.(*ssa.Alloc); ok && body[al.Block()] && localOnly(al) {
-					continue // a variable local to one iteration
+				if al, ok := n.Addr.(*ssa.Alloc); ok && body[al.Block()] && (localOnly(al) || !al.Heap) {
+					continue // a variable local to one iteration (non-escaping locals are cells, not heap arrays)
 				}
 				if addr, ok := x.knownPtr(fr, n.Addr); ok && !isPlainStruct(pt) {
 					for _, c := range comps(pt) {
